@@ -170,7 +170,9 @@ class AbstractTreeName(AbstractNameDefinition):
             trailer = par.parent
             if trailer.type == 'arglist':
                 trailer = trailer.parent
-            if trailer.type != 'classdef':
+            # In an unfinished call (`f(a=1, b`) the arguments are children of
+            # an error node, there is no trailer with the callee in front.
+            if trailer.type in ('trailer', 'decorator'):
                 if trailer.type == 'decorator':
                     value_set = context.infer_node(trailer.children[1])
                 else:
